@@ -45,6 +45,20 @@ EXTRA = {
              "the JSON reader, the harness's mapping of durations and capacities to indices.",
         technique="TLA+ monitor model-checked over the complete configuration enumeration; every configuration replayed on the real builders; recorded events validated by TLC",
         ref="5 C17"),
+    "C15": dict(
+        text="Model level: TLC checks, on every reachable state of UnsyncCache.tla (exhaustive) and SyncCache.tla "
+             "(depth-bounded) and for every contains_key / iter step, that the step changes nothing beyond the work "
+             "every other call performs first anyway (Pure in spec/MC_Unsync.tla and spec/MC_Sync.tla); the "
+             "conformance stages of the other properties tie those models to the code. Code level: metamorphic "
+             "pairs. Seeded random histories h are executed beside h' = h with extra contains_key / iter calls "
+             "inserted at random positions (tight capacities, tti, both caches); spec/TracePair.tla, run by TLC, walks "
+             "the two recorded traces in lock-step, skips the extra events and rejects the first other event that "
+             "differs in operation, arguments or result.",
+        note="The pair monitor compares what callers can see (results of get / contains_key / iter), not internal "
+             "snapshots. Universes are smaller than one maintenance batch. Trusted: TLC, the JSON reader, the harness "
+             "executing both halves of a pair under the same configuration and clock script.",
+        technique="TLA+ action property model-checked on the implementation specs; metamorphic trace pairs validated by a TLA+ pair monitor with TLC",
+        ref="5 C15"),
 }   # filled by later rounds: property -> dict(text=..., note=..., technique=..., category=...)
 
 
